@@ -27,6 +27,14 @@ let handle (x : sexp) : Stdlib.String.t =
        | Some l -> "L " ^ String.concat " " (List.map (fun x -> "[" ^ str_out x ^ "]") l))
   | L [A "escape"; bytes; q; L s] ->
       "E " ^ str_out (escape_for_quote printable (boolv bytes) (n_of_int (int_of_string (atom q))) (cps s))
+  | L [A "etoks"; depth; maxlen; sort; v] ->
+      let e = expr_of { e_depth = optz depth; e_maxlen = zint maxlen; e_sort = boolv sort } (val_of v) false in
+      let lit b s = let q = quote_strategy s in
+        (if b then [98] else []) @ [int_of_n q] @ List.map int_of_n (escape_for_quote printable b q s) @ [int_of_n q] in
+      let tk = function
+        | TP s | TNum s | TName s | TRepr s -> List.map int_of_n s
+        | TStr (b, s) -> lit b s in
+      "K " ^ String.concat " 32 " (List.map (fun t -> String.concat " " (List.map string_of_int (tk t))) (etoks e))
   | L [A "litval"; bytes; q; L body] ->
       (match literal_value (boolv bytes) (n_of_int (int_of_string (atom q))) (cps body) with
        | None -> "V none" | Some v -> "V " ^ str_out v)
